@@ -11,23 +11,26 @@
                           results of the temp-file syscalls (fault schedules)
 
   Every C function of the property is a total function World → Cq → … ;
-  loops are structural recursions over the chunk list or over the write
-  schedule; the only fuel-driven loop is chunkqueue_steal_with_tempfiles()
-  (its C loop retries as long as the kernel keeps answering EINTR).
+  loops are structural recursions over the chunk list; the two retry loops
+  (chunkqueue_append_mem_to_tempfile(), chunkqueue_steal_with_tempfiles():
+  the C loops retry as long as the kernel keeps answering EINTR) take fuel
+  that the scripted schedule bounds (every turn consumes a scheduled result,
+  a byte of `len` or a chunk).  `File.tl` is ghost state used only by the
+  proofs (never read by the model).
 
   Known divergences from the pinned tree (the model describes the repaired
   behaviour; the check reports the tree until it is repaired):
     * chunkqueue_steal(): a partial steal of 0 bytes from a FILE_CHUNK appends
       nothing and must not touch dest->last            (stealPartial)
     * chunkqueue_use_memory(len = 0) with ckpt == cq->last being an empty
-      MEM_CHUNK must keep that chunk                    (useMemory)
+      MEM_CHUNK must keep that chunk                    (useExisting)
     * chunkqueue_read_squash() must copy the data when chunkqueue_peek_data()
       returned a reference instead of filling the buffer (readSquash)
     * chunkqueue_to_tempfiles() must release what is left of its private copy of
       the queue on success, too (trailing 0-length chunks: a temp file and a
       descriptor would leak)                             (toTempfilesWith)
 
-  Core Lean only: this file is linked into the driver `ltmodel`.
+  Core Lean only: this file is linked into the driver `ltm_cq`.
 -/
 import LtVerif.Model.Basic
 namespace LtVerif.Cq
@@ -889,6 +892,7 @@ inductive Res where
   | rc (ok : Bool)               -- 0 / -1 (or non-NULL / NULL)
   | peeked (ok : Bool) (d : Bytes)
   | read (d : Option Bytes)
+deriving DecidableEq
 
 def allMem (q : Cq) : Bool := !q.chunks.isEmpty && q.chunks.all Chunk.isMem
 
